@@ -155,7 +155,8 @@ def rule_r2(chk):
              "instantiations): every slice, product and division in the solution functions is conformable and results have the shapes "
              "their consumers expect", floor=10)
     m = chk.repo.mod(SOL)
-    for inst in ({"nb": 5, "nf": 3, "nu": 7, "ny": 2, "nw": 11}, {"nb": 3, "nf": 5, "nu": 2, "ny": 7, "nw": 13}):
+    for inst in ({"nb": 5, "nf": 3, "nu": 7, "ny": 2, "nw": 11}, {"nb": 3, "nf": 5, "nu": 2, "ny": 7, "nw": 13}) + \
+            (({"nb": 11, "nf": 2, "nu": 13, "ny": 17, "nw": 19}, {"nb": 2, "nf": 11, "nu": 17, "ny": 19, "nw": 23}, {"nb": 7, "nf": 13, "nu": 3, "ny": 5, "nw": 2}) if chk.tier == "thorough" else ()):
         nb, nf, nu, ny, nw = (inst[k] for k in ("nb", "nf", "nu", "ny", "nw"))
         n = nb + nf
         tag = f"[nb={nb},nf={nf}]"
